@@ -19,6 +19,7 @@ func init() {
 			ruleC03R3(r)
 			ruleC03R4(r)
 			ruleC03R5(r)
+			ruleNameAgreement(r, "R6", "/iscp", "/wire")
 		},
 	})
 }
